@@ -5,6 +5,8 @@
 import RbModel.Lemmas.Morx
 import RbModel.Lemmas.MorxPurge
 import RbModel.Lemmas.MorxOffRange
+import RbModel.Lemmas.MorxIns
+import RbModel.Lemmas.MorxLig
 
 namespace RbModel.Morx
 open RbModel.Spec.Aat
@@ -352,8 +354,9 @@ example : ∃ (chains : List Chain) (b : Buf),
     Uses the zipper specs of Lemmas/BufZipper.lean; the two generated variants of buffer.rs it needs
     (`ensureGrowOnly`, `moveToRewindReversed` — the repairs of D6 and D5) are discharged by `decide` here, so a
     regression of either breaks this theorem.
-    Full statement (not proved): the same for the marked-insertion block (`InsS.insMarked`: `move_to(mark)` first)
-    and for the ligature transition (`ligLoop`: `move_to` to each component, `replace_glyph`, deletions). -/
+    The same for the marked-insertion block (`InsS.insMarked`: `move_to(mark)` first) is
+    `C17_insertion_marked_is_list_insertion`, and for the ligature transition (`LigS.ligLoop`: `move_to` to each
+    component, `replace_glyph`, deletions) `C17_ligature_stack_discipline` / `C17_ligature_store` below. -/
 theorem C17_inplace_zipper_partial (glyphs : Nat → Option Nat) (start c : Nat) (before dontAdvance : Bool)
     (b : RbModel.Buf) (hinv : RbModel.Buf.Inv b) (hne : 0 < RbModel.Buf.total b)
     (hgl : ∀ k, k < c → (glyphs (start + k)).isSome = true) :
@@ -371,6 +374,190 @@ example : ∃ b : RbModel.Buf, RbModel.Buf.Inv b ∧ 0 < RbModel.Buf.total b ∧
   ⟨{ info := [{ gid := 1 }, { gid := 2, cluster := 1 }], out := [{}, {}], idx := 1, len := 2, outLen := 1,
      haveOutput := true },
    ⟨by decide, by decide, by decide, (fun h => by simp at h), (fun _ => by decide), rfl⟩, by decide, by decide⟩
+
+/-- **C17_insertion_marked_is_list_insertion.** The marked-insertion block of `InsertionCtx::transition`
+    (`InsS.insMarked`: charge `max_ops` with the count, `move_to(mark)`, `[copy_glyph]; output_glyph × c; [skip_glyph]`,
+    `move_to(end + c)`, the glyph-flag bookkeeping) on the in/out buffer of the shared model is Apple's marked insertion
+    as a list insertion. For every buffer satisfying the representation invariant and holding at least one glyph, every
+    mark that is not behind the output cursor, every entry with a marked-insert index, an operation budget that the
+    count does not exhaust and an insertion list whose `c = flags & MARKED_INSERT_COUNT` glyphs are present: no panic;
+    the transition goes on (`true`); and either an allocation was refused (buffer marked unsuccessful) or
+      * the logical glyph sequence `out[0..out_len) ++ info[idx..len)` is the old one with exactly the `c` glyphs
+        `glyphs[x2], …, glyphs[x2 + c - 1]`, in that order, inserted before the MARKED glyph (`MARKED_INSERT_BEFORE`
+        set, or the mark at the end of the text) or after it — each a copy of the marked glyph's record with the glyph
+        id replaced (`markedSrc`: the marked glyph, at the end of the text the last glyph);
+      * nothing is lost or duplicated (`total` grows by `c`);
+      * the output cursor has moved on by `c`: it stands behind the same glyphs as before the insertion, so the current
+        glyph is still the current glyph. The mark register itself is not touched by this block (it is a parameter;
+        `InsS.transition` afterwards sets it to the *old* output cursor when SET_MARK is on, as HarfBuzz does).
+    The two generated variants of buffer.rs it needs (`ensureGrowOnly`, `moveToRewindReversed` — the repairs of D6
+    and D5) are discharged by `decide`, so a regression of either breaks this theorem. -/
+theorem C17_insertion_marked_is_list_insertion (glyphs : Nat → Option Nat) (mark : Nat) (e : Entry) (b : RbModel.Buf)
+    (hinv : RbModel.Buf.Inv b) (hne : 0 < RbModel.Buf.total b) (hmark : mark ≤ b.outLen) (hx2 : e.x2 ≠ 0xFFFF)
+    (hops : 0 < b.maxOps - ((e.flags &&& RbModel.Gen.Morx.INS_MARKED_INSERT_COUNT : Nat) : Int))
+    (hgl : ∀ k, k < (e.flags &&& RbModel.Gen.Morx.INS_MARKED_INSERT_COUNT) → (glyphs (e.x2 + k)).isSome = true) :
+    ∃ b' x, RbModel.Buf.markedSrc b mark = some x ∧ InsS.insMarked glyphs mark e b = .ok (b', true) ∧
+      (b'.successful = false ∨
+       (RbModel.Buf.Inv b' ∧ b'.successful = b.successful ∧
+        RbModel.Buf.total b' = RbModel.Buf.total b + (e.flags &&& RbModel.Gen.Morx.INS_MARKED_INSERT_COUNT) ∧
+        b'.outLen = b.outLen + (e.flags &&& RbModel.Gen.Morx.INS_MARKED_INSERT_COUNT) ∧
+        ∀ q, RbModel.Buf.seq b' q =
+          RbModel.Buf.insertedAt b
+            (if mark < RbModel.Buf.total b ∧ bit e.flags RbModel.Gen.Morx.INS_MARKED_INSERT_BEFORE = false
+             then mark + 1 else mark)
+            glyphs e.x2 (e.flags &&& RbModel.Gen.Morx.INS_MARKED_INSERT_COUNT) x q)) :=
+  RbModel.Buf.insMarked_zipper glyphs mark e b hinv hne hmark hx2 hops hgl (by decide) (by decide)
+
+/-- non-vacuity: three glyphs `1 2 3`, two already on the output side, the mark on the first; an entry that inserts
+    two glyphs (20, 21) AFTER the marked glyph: the hypotheses hold and the model computes `1 20 21 2 3` with the
+    output cursor behind `2` again (4 = 2 + 2 glyphs on the output side). -/
+example : ∃ (glyphs : Nat → Option Nat) (e : Entry) (b : RbModel.Buf),
+    RbModel.Buf.Inv b ∧ 0 < RbModel.Buf.total b ∧ 0 ≤ b.outLen ∧ e.x2 ≠ 0xFFFF ∧
+    0 < b.maxOps - ((e.flags &&& RbModel.Gen.Morx.INS_MARKED_INSERT_COUNT : Nat) : Int) ∧
+    (∀ k, k < (e.flags &&& RbModel.Gen.Morx.INS_MARKED_INSERT_COUNT) → (glyphs (e.x2 + k)).isSome = true) ∧
+    (InsS.insMarked glyphs 0 e b).toOption.map
+      (fun r => (r.2, r.1.outLen, (List.range 6).map (fun q => (RbModel.Buf.seq r.1 q).map (·.gid)))) =
+      some (true, 4, [some 1, some 20, some 21, some 2, some 3, none]) :=
+  ⟨fun k => some (20 + k), ⟨0, 2, 0xFFFF, 0⟩,
+   { info := [{ gid := 1 }, { gid := 2, cluster := 1 }, { gid := 3, cluster := 2 }], out := [{}, {}, {}], idx := 2, len := 3,
+     outLen := 2, haveOutput := true, maxOps := 100 },
+   ⟨by decide, by decide, by decide, (fun h => by simp at h), (fun _ => by decide), rfl⟩, by decide, by decide, by decide,
+   by decide, (fun k _ => rfl), by decide +kernel⟩
+
+/-! ## the ligature subtable: the component stack and the action list -/
+
+/-- the ring of remembered component positions has the size the reference interpreter's convention names
+    (HB_MAX_CONTEXT_LENGTH = 64; regenerated constant), and a depth is stored in the slot `depth mod 64` -/
+theorem C17_ligature_ring_size :
+    RbModel.Gen.Morx.LIGATURE_MAX_MATCHES = ligStackKept ∧ ∀ i, posIdx i = i % ligStackKept := ⟨by decide, fun _ => rfl⟩
+
+/-- **C17_ligature_push** (SET_COMPONENT). `Rep cs st lo`: the code's stack `cs` — a depth counter that is never
+    capped and a ring of 64 positions indexed by depth modulo 64 — represents the list `st` of the positions pushed
+    since the last reset, oldest first, newest last, of which the entries of depth ≥ `lo` are still remembered
+    (`length ≤ lo + 64`). For every such state and every output cursor `p`: the SET_COMPONENT block does not panic
+    and leaves a stack that represents `st` with `p` pushed on top — unless `p` is the top already ("never mark the
+    same index twice", DONT_ADVANCE loops), then `st` itself. The depth grows by one without any cap; the window of
+    remembered entries stays `lo` while fewer than 64 are remembered and otherwise moves up by one: the oldest
+    remembered position is overwritten, exactly as the ring does. (The side condition excludes only a stack all of
+    whose remembered entries were popped while older ones remain below — there the code compares with a stale slot.) -/
+theorem C17_ligature_push (cs : CS) (st : List Nat) (lo p : Nat) (h : Rep cs st lo)
+    (hne : st.length = 0 ∨ lo < st.length) :
+    ∃ cs', LigS.ligPush cs p = .ok cs' ∧ Rep cs' (pushed st p) (pushedLo st lo p) ∧
+      (pushed st p = if st.getLast? = some p then st else st ++ [p]) ∧
+      (pushedLo st lo p = if st.getLast? = some p then lo else if st.length - lo < 64 then lo else lo + 1) := by
+  obtain ⟨cs', e, hr⟩ := ligPush_rep cs st lo p h hne
+  exact ⟨cs', e, hr, rfl, rfl⟩
+
+/-- non-vacuity, at the cap: a stack of depth 64 whose ring is full (positions 0..63) takes a 65th position; the depth
+    becomes 65 and the window moves to [1, 65). -/
+example : ∃ (cs : CS) (st : List Nat), Rep cs st 0 ∧ st.length = 64 ∧ (pushed st 64).length = 65 ∧ pushedLo st 0 64 = 1 :=
+  ⟨{ matchLen := 64, matchPos := (List.range 64).toArray }, List.range 64,
+   ⟨by simp, by simp, by simp, by simp, by
+      intro k _ hk
+      simp at hk
+      have : k % 64 = k := Nat.mod_eq_of_lt hk
+      simp [this, hk]⟩, by simp, by decide, by decide⟩
+
+/-- **C17_ligature_store** (one Store / Last action of PERFORM_ACTION). The stack represents `st`, the action loop has
+    popped down to depth `m` (`lo ≤ m < length`: a remembered entry) and the output cursor stands on that component
+    (`out_len = st[m]`); the positions on the stack do not decrease with the depth (`Sorted`: they are output cursors of
+    successive moments) and the ones above `m` lie inside the text; the buffer is an in/out buffer in good standing
+    (`Good`: representation invariant, no allocation refused, the text fits `max_len`). Then the Store block
+    (`replace_glyph(lig)`, the loop that deletes the later components, `move_to(lig_end)`, `merge_out_clusters`) does
+    not panic and
+      * the ligature glyph is written at the position popped by this action, `st[m]`;
+      * the positions popped before it — exactly the entries of `st` above depth `m` (`Above st m`) — become the
+        deleted glyph 0xFFFF;
+      * no other position of the logical glyph sequence changes its glyph id (no position is written that was not
+        on the stack), the number of glyphs is unchanged;
+      * the stack is cut back to `st.take (m + 1)`: the popped components are gone, the ligature stays on it. -/
+theorem C17_ligature_store (lig m lo : Nat) (st : List Nat) (cs : CS) (b : RbModel.Buf)
+    (hrep : Rep cs st lo) (hlo : lo ≤ m) (hm : m < st.length) (hsorted : Sorted st)
+    (hg : Good b) (hout : b.outLen = st[m]) (hcur : b.outLen < RbModel.Buf.total b)
+    (hpos : ∀ j x, m < j → st[j]? = some x → x < RbModel.Buf.total b) :
+    ∃ cs' b', LigS.ligStore lig m cs b = .ok (cs', b') ∧ Rep cs' (st.take (m + 1)) lo ∧ Good b' ∧
+      RbModel.Buf.total b' = RbModel.Buf.total b ∧
+      (∀ q, Above st m q → gv b' q = some 0xFFFF) ∧
+      (∀ q, ¬ Above st m q → gv b' q = if q = st[m] then some lig else gv b q) := by
+  obtain ⟨cs', b', e, h1, h2, h3, _, h5, h6⟩ := ligStore_spec lig m lo st cs b hrep hlo hm hsorted hg hout hcur hpos
+  exact ⟨cs', b', e, h1, h2, h3, h5, h6⟩
+
+/-- **C17_ligature_stack_discipline.** `LigatureCtx::transition` (SET_COMPONENT push, PERFORM_ACTION loop over the
+    ligature action list, on the code's ring stack and the in/out buffer of the shared buffer model) refines the
+    ligature action of the reference interpreter written from Apple's manual (`Spec.Aat.ligAct`: a list as component
+    stack, a plain glyph vector), for all tables, entries, stacks and buffers.
+    `Rlig cs b st lo s` ties a state of the code to a state `s` of the reference: the code's stack represents `st`
+    with the window `[lo, length)` remembered (`Rep`), the reference's stack is that remembered part, newest first,
+    its `lost` is `lo`; the positions on the stack do not decrease and are not behind the output cursor; the glyph ids
+    of the logical glyph sequence are the reference's glyph vector; the reference's cursor is `out_len`; the buffer is in
+    good standing. Whenever the reference interpreter's action is defined on `s` (every action / component / ligature
+    index inside its table, no component popped that is older than the newest 64), the code does not panic and ends
+    in a state tied in the same way to the reference's result `s'`. Hence
+      * the component stack holds exactly the positions pushed by SET_COMPONENT entries since the last reset, newest
+        last — as deep as the run makes it, the newest 64 remembered (`C17_ligature_push`);
+      * PERFORM_ACTION pops from the top, one position per action; a Store / Last action writes the ligature selected
+        by the accumulated component values at the position it popped, the positions popped before it become deleted
+        glyphs (0xFFFF), every other glyph keeps its id (`Sim`: all glyph ids equal the reference's, which writes
+        only those positions) — `C17_ligature_store` states this for one Store in the code's own terms;
+      * afterwards the stack is a prefix `st'.take n` of what it was (after the push): only popping happened, the
+        ligature stays on it; on underflow it is empty;
+      * the output cursor is back where it was (`move_to(end)`), the number of glyphs is unchanged.
+    Side conditions: the component table holds u16 values (so the u32 accumulator cannot wrap within 64 pops) and the
+    action index is not within 64 of the u16 range's end (the code's index wraps there). -/
+theorem C17_ligature_stack_discipline (t : LigTable) (hcomp : ∀ i v, t.components i = some v → v < 65536)
+    (cs : CS) (e : Entry) (b : RbModel.Buf) (st : List Nat) (lo : Nat) (s s' : St)
+    (hr : Rlig cs b st lo s) (hx1 : e.x1 + 64 ≤ 65535)
+    (h : ligAct t.actions t.components t.ligatures ⟨e.newState, e.flags, e.x1, e.x2⟩ s = some s') :
+    ∃ cs' b' st' lo', LigS.transition t cs e b = .ok (cs', b') ∧ Rlig cs' b' st' lo' s' ∧ b'.outLen = b.outLen ∧
+      RbModel.Buf.total b' = RbModel.Buf.total b ∧
+      (∃ n, st' = (if bit e.flags RbModel.Gen.Morx.LIG_SET_COMPONENT then pushed st b.outLen else st).take n) ∧
+      lo' = (if bit e.flags RbModel.Gen.Morx.LIG_SET_COMPONENT then pushedLo st lo b.outLen else lo) :=
+  ligTransition_sim t hcomp cs e b st lo s s' hr hx1 h
+
+/-- non-vacuity: three glyphs `5 6 7`, the first on the stack, the cursor on the second; an entry with SET_COMPONENT and
+    PERFORM_ACTION whose action list pops two components (the second action is Last): the hypotheses hold, the
+    reference forms the ligature 9 at position 0 and deletes position 1, and so does the code. -/
+example : Rlig exLigCS exLigBuf [0] 0 exLigSt ∧
+    (∀ i v, exLigTable.components i = some v → v < 65536) ∧
+    (ligAct exLigTable.actions exLigTable.components exLigTable.ligatures ⟨0, 0xA000, 0, 0⟩ exLigSt).map
+      (fun s => (s.xs.toList, s.stack, s.lost)) = some ([9, 0xFFFF, 7], [0], 0) ∧
+    (LigS.transition exLigTable exLigCS ⟨0, 0xA000, 0, 0⟩ exLigBuf).toOption.map
+      (fun r => (r.1.matchLen, r.2.outLen, (List.range 4).map (gv r.2))) =
+      some (1, 1, [some 9, some 0xFFFF, some 7, none]) :=
+  ⟨exLig_rlig, by intro i v h; simp [exLigTable] at h; omega, by decide +kernel, by decide +kernel⟩
+
+/-- non-vacuity of `C17_ligature_store`'s hypotheses: the same buffer with the cursor moved to position 0, the stack
+    `[0, 1]` popped down to depth 0. -/
+example : ∃ (cs : CS) (b : RbModel.Buf), Rep cs [0, 1] 0 ∧ Sorted [0, 1] ∧ Good b ∧ b.outLen = [0, 1][0] ∧
+    b.outLen < RbModel.Buf.total b ∧ (∀ j x, 0 < j → [0, 1][j]? = some x → x < RbModel.Buf.total b) :=
+  ⟨{ matchLen := 2, matchPos := (Array.replicate 64 0).set! 1 1 },
+   { info := [{ gid := 5 }, { gid := 6, cluster := 1 }, { gid := 7, cluster := 2 }], out := [{}, {}, {}], idx := 0, len := 3,
+     outLen := 0, haveOutput := true, maxLen := 100 },
+   ⟨rfl, rfl, by decide, by decide, by
+      intro k _ hk
+      have : k = 0 ∨ k = 1 := by simp at hk; omega
+      rcases this with h | h <;> subst h <;> rfl⟩,
+   by
+      intro i j x y hij hx hy
+      have hj : j = 0 ∨ j = 1 := by
+        rcases Nat.lt_or_ge j 2 with h | h
+        · omega
+        · rw [List.getElem?_eq_none (by simp; omega)] at hy; cases hy
+      rcases hj with h | h <;> subst h
+      · have : i = 0 := by omega
+        subst this; simp at hx hy; omega
+      · rcases Nat.eq_zero_or_pos i with h | h
+        · subst h; simp at hx hy; omega
+        · have : i = 1 := by omega
+          subst this; simp at hx hy; omega,
+   ⟨⟨by decide, by decide, by decide, (fun h => by simp at h), (fun _ => by decide), rfl⟩, rfl, by decide⟩, rfl, by decide,
+   by
+      intro j x hj hx
+      have : j = 1 := by
+        rcases Nat.lt_or_ge j 2 with h | h
+        · omega
+        · rw [List.getElem?_eq_none (by simp; omega)] at hx; cases hx
+      subst this; simp at hx; subst hx; decide⟩
 
 /-! ## deleted glyphs are purged, whoever positions -/
 
